@@ -193,6 +193,9 @@ def main():
         p.parent.mkdir(parents=True, exist_ok=True)
         p.write_bytes(spec['text'].encode('latin-1') if spec.get('latin1') else spec['text'].encode())
         os.chmod(p, int(spec.get('mode', '644'), 8))
+        if 'age_s' in spec:           # a file last written that many seconds ago (e.g. a backup older than its test case)
+            import time as _t
+            os.utime(p, (_t.time() - spec['age_s'], _t.time() - spec['age_s']))
     test_cases = scen['test_cases']
     cur = test_cases[0]
     script = wd / scen.get('script_name', 'test.sh')
